@@ -1055,6 +1055,9 @@ def check_C15(ctx):
             cnt += n
         rep.floor("C15.union-of-slots", cnt, 27)
     ctx.guard("C15.union-of-slots", conv)
+    # ... of `from_ckc(slot)`, which is the card's bit for the 52 card words and the empty set for every other word
+    from .cards import premise_from_ckc
+    ctx.guard("C15.from_ckc", premise_from_ckc, ctx, "C15.from_ckc")
 
     def ops():
         s, c = atom("s", "u64"), atom("c", "u64")
